@@ -130,8 +130,8 @@ fn c06_info_reply_handle_data__known() {
 }
 
 // @check props=C06 tier=quick
-// @desc dispatcher on well-formed messages without INFO_REPLY: [INFO_TS, HEARTBEAT] and [INFO_SRC, INFO_DST, PAD] with symbolic timestamp, version, vendor, prefixes, ids, sequence numbers and count are parsed by the real parser and iterated by the real MessageReceiver until exhaustion: no panic; the first yields exactly the HEARTBEAT with the INFO_TS timestamp, the second yields nothing and leaves the INFO_SRC prefix as source
-// @bounds two 64-byte datagrams (the largest size for which CBMC keeps the concrete framing bytes of a local array), all value fields symbolic over their full domain; submessage ids / flags / lengths concrete; unwind 30
+// @desc dispatcher on well-formed messages without INFO_REPLY: [INFO_TS(invalidate), HEARTBEAT] and [INFO_TS, INFO_SRC, PAD] with symbolic timestamp, version, vendor, prefixes, ids, sequence numbers and count are parsed by the real parser and iterated by the real MessageReceiver until exhaustion: no panic; the first yields exactly the HEARTBEAT with no timestamp and the header's prefix as source, the second yields nothing and leaves the INFO_SRC prefix and the INFO_TS timestamp in the receiver
+// @bounds datagrams of 56 and 60 bytes (local arrays of up to 60 bytes keep their concrete framing bytes in CBMC; 64 bytes did not finish in 900 s), all value fields symbolic over their full domain; submessage ids / flags / lengths concrete; unwind 30
 // @assume NOT trigger KF-C06-1 (no INFO_REPLY submessage)
 // @enc rtps_messages::overall_structure::RtpsMessageRead::try_from
 // @enc rtps::message_receiver::MessageReceiver::next
@@ -139,20 +139,17 @@ fn c06_info_reply_handle_data__known() {
 #[kani::unwind(30)]
 fn c06_receiver_dispatch__rest() {
     let prefix: GuidPrefix = kani::any();
-    let (sec, frac): (u32, u32) = (kani::any(), kani::any());
     let (first_sn, last_sn, count): (i64, i64, i32) = (kani::any(), kani::any(), kani::any());
-    let mut b = [0u8; 64];
-    put_header(&mut b, &prefix);
-    put_sub(&mut b, 20, 0x09, 1, 8); // INFO_TS
-    put4(&mut b, 24, sec.to_le_bytes());
-    put4(&mut b, 28, frac.to_le_bytes());
-    put_sub(&mut b, 32, 0x07, 1, 28); // HEARTBEAT (final / liveliness clear)
-    put4(&mut b, 36, kani::any());
-    put4(&mut b, 40, kani::any());
-    put_sn(&mut b, 44, first_sn);
-    put_sn(&mut b, 52, last_sn);
-    put4(&mut b, 60, count.to_le_bytes());
     {
+        let mut b = [0u8; 56];
+        put_header(&mut b, &prefix);
+        put_sub(&mut b, 20, 0x09, 0b11, 0); // INFO_TS with the invalidate flag: no timestamp follows
+        put_sub(&mut b, 24, 0x07, 1, 28); // HEARTBEAT (final / liveliness clear)
+        put4(&mut b, 28, kani::any());
+        put4(&mut b, 32, kani::any());
+        put_sn(&mut b, 36, first_sn);
+        put_sn(&mut b, 44, last_sn);
+        put4(&mut b, 52, count.to_le_bytes());
         let m = match RtpsMessageRead::try_from(&b[..]) {
             Ok(m) => m,
             Err(_) => {
@@ -172,10 +169,7 @@ fn c06_receiver_dispatch__rest() {
                 _ => assert!(false, "C06: MessageReceiver yielded an interpreter submessage"),
             }
             assert!(mr.source_guid_prefix() == prefix, "C06: source prefix is the header's");
-            match mr.source_timestamp() {
-                Some(t) => assert!(t.seconds() == sec && t.fraction() == frac, "C06: timestamp after INFO_TS"),
-                None => assert!(false, "C06: timestamp lost"),
-            }
+            assert!(mr.source_timestamp().is_none(), "C06: timestamp present after INFO_TS(invalidate)");
         }
         assert!(yielded == 1, "C06: exactly the HEARTBEAT is yielded");
         kani::cover!(first_sn > last_sn && count < 0, "a HEARTBEAT with first > last and a negative count passes the dispatcher");
@@ -183,31 +177,33 @@ fn c06_receiver_dispatch__rest() {
     }
     {
         let src: GuidPrefix = kani::any();
-        let mut c = [0u8; 64];
+        let (sec, frac): (u32, u32) = (kani::any(), kani::any());
+        let mut c = [0u8; 60];
         put_header(&mut c, &prefix);
-        put_sub(&mut c, 20, 0x0c, 1, 20); // INFO_SRC: unused(4) version(2) vendor(2) prefix(12)
-        c[28] = kani::any();
-        c[29] = kani::any();
-        c[30] = kani::any();
-        c[31] = kani::any();
+        put_sub(&mut c, 20, 0x09, 1, 8); // INFO_TS
+        put4(&mut c, 24, sec.to_le_bytes());
+        put4(&mut c, 28, frac.to_le_bytes());
+        put_sub(&mut c, 32, 0x0c, 1, 20); // INFO_SRC: unused(4) version(2) vendor(2) prefix(12)
+        c[40] = kani::any();
+        c[41] = kani::any();
+        c[42] = kani::any();
+        c[43] = kani::any();
         let mut i = 0;
         while i < 12 {
-            c[32 + i] = src[i];
+            c[44 + i] = src[i];
             i += 1;
         }
-        put_sub(&mut c, 44, 0x0e, 1, 12); // INFO_DST
-        i = 0;
-        while i < 12 {
-            c[48 + i] = kani::any();
-            i += 1;
-        }
-        put_sub(&mut c, 60, 0x01, 1, 0); // PAD
+        put_sub(&mut c, 56, 0x01, 1, 0); // PAD
         match RtpsMessageRead::try_from(&c[..]) {
             Ok(m) => {
                 assert!(m.submessages().len() == 3, "C06: three submessages parsed");
                 let mut mr = MessageReceiver::new(&m);
                 assert!(mr.next().is_none(), "C06: interpreter submessages are not yielded");
                 assert!(mr.source_guid_prefix() == src, "C06: source prefix after INFO_SRC");
+                match mr.source_timestamp() {
+                    Some(t) => assert!(t.seconds() == sec && t.fraction() == frac, "C06: timestamp after INFO_TS"),
+                    None => assert!(false, "C06: timestamp lost"),
+                }
                 core::mem::forget(m);
             }
             Err(_) => assert!(false, "C06: well-formed message rejected"),
@@ -336,12 +332,12 @@ fn c06_sequence_number_set_iter_overflow__known() {
 
 // @check props=C06 tier=quick
 // @desc SequenceNumberSet::set() outside the recorded trigger: a set decoded from arbitrary wire bytes with base <= i64::MAX - 256 yields at most numBits members, each in [base, base + numBits), without panic
-// @bounds 16 symbolic wire bytes (numBits <= 32 fits), both endiannesses; unwind 36
-// @assume NOT trigger KF-C06-4: base <= i64::MAX - 256
+// @bounds 16 symbolic wire bytes, numBits <= 8 (the iterator's inner skip loop nested in the consumer's loop: 32 bits did not finish in 900 s), both endiannesses; unwind 10
+// @assume NOT trigger KF-C06-4: base <= i64::MAX - 256; numBits <= 8
 // @enc rtps_messages::submessage_elements::SequenceNumberSet::try_read_from_bytes
 // @enc rtps_messages::submessage_elements::SequenceNumberSet::set
 #[kani::proof]
-#[kani::unwind(36)]
+#[kani::unwind(10)]
 fn c06_sequence_number_set_iter__rest() {
     let le: bool = kani::any();
     let b: [u8; 16] = kani::any();
@@ -349,13 +345,15 @@ fn c06_sequence_number_set_iter__rest() {
     let mut d = &b[..];
     if let Ok(s) = SequenceNumberSet::try_read_from_bytes(&mut d, &e) {
         kani::assume(s.base() <= i64::MAX - 256);
+        let nb = if le { u32::from_le_bytes([b[8], b[9], b[10], b[11]]) } else { u32::from_be_bytes([b[8], b[9], b[10], b[11]]) };
+        kani::assume(nb <= 8);
         let mut n = 0usize;
         for x in s.set() {
-            assert!(x >= s.base() && x - s.base() < 32, "C06: member outside [base, base + numBits)");
+            assert!(x >= s.base() && x - s.base() < 8, "C06: member outside [base, base + numBits)");
             n += 1;
         }
-        assert!(n <= 32, "C06: more members than numBits");
-        kani::cover!(n == 32 && s.base() < 0, "a full 32-bit set with a negative base is iterated");
+        assert!(n <= 8, "C06: more members than numBits");
+        kani::cover!(n == 8 && s.base() < 0, "a full 8-bit set with a negative base is iterated");
     }
 }
 
